@@ -21,6 +21,19 @@ type c17Target struct{ V int }
 var errC17Ser = errors.New("serializer failed")
 var errC17Dec = errors.New("decoder failed")
 
+// A JSON body is a struct with an arbitrary (symbolic) payload; the stub serializer returns a reader that carries the
+// payload it was given next to the text "JSON:", so the transport stub can tell, for all payload values, whether the
+// request body is the serializer's output for THAT body and is still unread.
+type c17Payload struct{ V int }
+
+type c17Reader struct {
+	text    *strings.Reader
+	payload int
+}
+
+func (r *c17Reader) Read(p []byte) (int, error) { return r.text.Read(p) }
+func (r *c17Reader) Close() error               { return nil }
+
 type c17Env struct {
 	tr        *vhTransport
 	api       *SimpleAPIDef
@@ -53,6 +66,9 @@ func c17New(withHeader bool) *c17Env {
 		e.serCalls++
 		if e.serFail {
 			return nil, errC17Ser
+		}
+		if pl, ok := body.(c17Payload); ok {
+			return &c17Reader{text: strings.NewReader("JSON:"), payload: pl.V}, nil
 		}
 		return strings.NewReader("JSON:" + body.(string)), nil
 	}
@@ -105,6 +121,10 @@ func c17Template() (string, PathParam, string) {
 }
 
 func c17CheckRequest(e *c17Env, ix int, method, wantRel, wantBody, wantCT string) {
+	c17CheckRequestP(e, ix, method, wantRel, wantBody, wantCT, false, 0)
+}
+
+func c17CheckRequestP(e *c17Env, ix int, method, wantRel, wantBody, wantCT string, hasPayload bool, payload int) {
 	if ix >= len(e.tr.seen) {
 		return
 	}
@@ -126,6 +146,13 @@ func c17CheckRequest(e *c17Env, ix int, method, wantRel, wantBody, wantCT string
 		got = string(b)
 	}
 	vfAssert("body-is-serializer-output", got == wantBody)
+	if hasPayload {
+		rd, ok := seen.body.(*c17Reader)
+		vfAssert("body-is-serializer-output", ok)
+		if ok {
+			vfAssert("body-carries-the-given-payload", rd.payload == payload)
+		}
+	}
 }
 
 func vh_C17_NoBody() {
@@ -170,15 +197,16 @@ func vh_C17_Body() {
 	var mio interface {
 		Eval() *APIResponse[c17Target]
 	}
-	wantBody, wantCT := "JSON:payload", "application/json"
+	wantBody, wantCT := "JSON:", "application/json"
+	pl := c17Payload{V: vfInt("payload")}
 	form := &MultipartForm{Value: map[string][]string{"k": {"v"}}}
 	switch ctor {
 	case 0:
-		mio = APIMakePostJSONBody[string, c17Target](e.api, tmpl)(pp, "payload", &target)
+		mio = APIMakePostJSONBody[c17Payload, c17Target](e.api, tmpl)(pp, pl, &target)
 	case 1:
-		mio = APIMakePutJSONBody[string, c17Target](e.api, tmpl)(pp, "payload", &target)
+		mio = APIMakePutJSONBody[c17Payload, c17Target](e.api, tmpl)(pp, pl, &target)
 	case 2:
-		mio = APIMakePatchJSONBody[string, c17Target](e.api, tmpl)(pp, "payload", &target)
+		mio = APIMakePatchJSONBody[c17Payload, c17Target](e.api, tmpl)(pp, pl, &target)
 	case 3:
 		mio = APIMakePostMultipartBody[c17Target](e.api, tmpl)(pp, form, &target)
 	case 4:
@@ -186,7 +214,7 @@ func vh_C17_Body() {
 	case 5:
 		mio = APIMakePatchMultipartBody[c17Target](e.api, tmpl)(pp, form, &target)
 	default:
-		mio = APIMakeDoNewRequestWithBodySerializer[string, c17Target](e.api, "REPORT", tmpl, "text/x-report", e.api.RequestSerializerForJSON)(pp, "payload", &target)
+		mio = APIMakeDoNewRequestWithBodySerializer[c17Payload, c17Target](e.api, "REPORT", tmpl, "text/x-report", e.api.RequestSerializerForJSON)(pp, pl, &target)
 		wantCT = "text/x-report"
 	}
 	if ctor >= 3 && ctor <= 5 {
@@ -201,7 +229,7 @@ func vh_C17_Body() {
 			return
 		}
 		vfAssert("one-request-per-evaluation", len(e.tr.seen) == k+1)
-		c17CheckRequest(e, k, method, wantRel, wantBody, wantCT)
+		c17CheckRequestP(e, k, method, wantRel, wantBody, wantCT, ctor < 3 || ctor > 5, pl.V)
 		vfAssert("no-error", r.Err == nil)
 		vfAssert("target-object", r.TargetObject == &target)
 		vfAssert("decoder-got-the-response-body", len(e.decBody) == k+1 && e.decBody[k] == "RESP")
